@@ -65,9 +65,10 @@ def configs(tier):
     else:
         grid = [
             dict(N=3, beta_prev=0.0, tol=0.25, D=4, pop="ll"),
-            dict(N=4, beta_prev=0.0, tol=0.25, D=4, pop="ll"),
-            dict(N=3, beta_prev=0.0, tol=0.125, D=8, pop="ll"),
+            # N = 4 and tolerance 1/8 from beta_prev = 0 did not finish within 40 minutes on 16
+            # idle cores (each configuration ran past 7 minutes alone): not part of any claim
             dict(N=3, beta_prev=0.5, tol=0.25, D=8, pop="ll"),
+            dict(N=2, beta_prev=0.0, tol=0.125, D=8, pop="ll"),
             dict(N=3, beta_prev=0.0, tol=0.25, D=4, pop="all"),
             dict(N=3, beta_prev=0.75, tol=0.25, D=8, pop="ll", only_ms=("half", "cap"), only_targets=("sym",)),
             dict(N=3, beta_prev=0.5, tol=0.125, D=8, pop="ll", only_ms=("cap",), only_targets=("sym",)),
